@@ -13,11 +13,13 @@ func init() {
 			"ERR-PROP: header/payload/parse errors and systemerr frames reach failure exits; (false,nil) only on header EOF/ErrUnexpectedEOF; (true,nil) only after all steps",
 			"PV-CONST: strings.Cut at the first space, time.RFC3339Nano, Body = rest, both timestamps from the parsed time; missing space is an error",
 			"ERR-CHAIN: Next stores parseNext's error into the field Err returns; records carry the container's resource",
+			"ERR-STICKY: that field is never overwritten once it holds a failure (a consumer that asks again after `false` cannot clear it)",
 		},
 		NotDecided: []string{"that io.ReadFull/io.CopyN/time.Parse meet their documented contracts", "nanosecond exactness of pcommon.NewTimestampFromTime", "frames larger than memory"},
 		Rules: func(r *Run) {
 			ruleOwnWrapScoped(r, []string{dockerlogPkg}, 2) // a stream that fails is reported: Err/Close of the stream and merge iterators reach every source
 			ruleDaemonLog(r)
+			ruleErrSticky(r, []string{dockerlogPkg}, 1) // "never silently dropped": the recorded fault survives further Next calls
 		},
 	})
 }
